@@ -12,7 +12,8 @@ Definition c05step := (nat * option nat * res (list N) * list N)%type.
 Definition c05x := (list view * list c05step)%type.
 
 Definition S0 (p : nat * res (list N)) : c05step := (fst p, None, snd p, []).
-Definition SW (vi b : nat) (obs : res (list N)) (held : list N) : c05step := (vi, Some b, obs, held).
+(* the room is shipped as a binary number *)
+Definition SW (vi : nat) (b : N) (obs : res (list N)) (held : list N) : c05step := (vi, Some (N.to_nat b), obs, held).
 
 Definition C05x_step_ok (v : view) (st : c05step) : bool :=
   let '(_, _, obs, _) := st in C05_ok v obs.
